@@ -134,6 +134,11 @@ func c15Case(r *obs.Run, i int) {
 	maxLen := r.Pick(8000, 20000)
 	pl.TLen = 2000 + rng.Intn(maxLen-1999)
 	pl.QLen = 2000 + rng.Intn(maxLen-1999)
+	if pl.MinID == 0.8 && rng.Intn(3) == 0 {
+		// a target past 15360 letters at this identity: no word size satisfies both the index bound and the q-gram
+		// lemma for the whole hit length, so Optimise settles for a filter seed shorter than the minimum hit length
+		pl.TLen = 15400 + rng.Intn(3000)
+	}
 	T := c14Rand(rng, pl.TLen)
 	Q := c14Rand(rng, pl.QLen)
 	if pl.Self {
@@ -373,6 +378,9 @@ func c15Case(r *obs.Run, i int) {
 		return
 	}
 	w["filter_params"] = *pa.FilterParams
+	if pa.FilterParams.MinMatch != pl.MinHitLen {
+		r.Count("runs_where_optimise_shortened_the_filter_seed", 1)
+	}
 	var hits [2]dp.Hits
 	var traps [2]filter.Trapezoids
 	for strand := 0; strand < 2; strand++ {
